@@ -1,28 +1,27 @@
-#!/bin/sh
-# multi-seed false-alarm stress on the clean tree: tools/stress.sh <tier> <first-seed> <n-seeds> [props...]
-# (development aid; skips the Lean gate; failures keep their replay under /tmp/stress)
-tier=$1; s0=$2; n=$3; shift 3
+#!/bin/bash
+# multi-seed false-alarm stress on the clean tree: tools/stress.sh <tier> <first-seed> <n-seeds> <parallel> [props...]
+# (development aid; skips the Lean gate, writes no evidence; failures keep their log and replay under /tmp/stress)
+tier=$1; s0=$2; n=$3; par=${4:-4}; shift 4
 props=${*:-C01 C02 C03 C04 C05 C06 C07 C08 C09 C10 C11 C12 C13 C14 C15 C16 C17 C18 C19 C20}
 cd "$(dirname "$0")/.."
 mkdir -p /tmp/stress
 one() {
-  c=$1
-  i=0
-  while [ $i -lt $n ]; do
+  c=$1; tier=$2; s0=$3; n=$4
+  for ((i=0; i<n; i++)); do
     sd=$((s0+i))
-    VERIF_SEED=$sd VERIF_DEV_SKIP_LEAN=1 ./check $c --tier $tier > /tmp/stress/$c.$tier.$sd.log 2>&1
+    log=/tmp/stress/$c.$tier.$sd.log
+    start=$(date +%s)
+    VERIF_SEED=$sd VERIF_DEV_SKIP_LEAN=1 ./check $c --tier $tier > $log 2>&1
     rc=$?
+    el=$(( $(date +%s) - start ))
     if [ $rc -ne 0 ]; then
-      echo "FAIL $c tier=$tier seed=$sd rc=$rc :: $(grep -v KNOWN /tmp/stress/$c.$tier.$sd.log | tail -1 | cut -c1-200)"
-      for r in $(grep -o 'replay=[^ ]*' /tmp/stress/$c.$tier.$sd.log | cut -d= -f2); do cp $r /tmp/stress/$c.$tier.$sd.$(basename $r) 2>/dev/null; done
+      echo "FAIL $c tier=$tier seed=$sd rc=$rc ${el}s :: $(grep -v KNOWN $log | tail -1 | cut -c1-200)"
+      for r in $(grep -o 'replay=[^ ]*' $log | cut -d= -f2); do cp $r /tmp/stress/$c.$tier.$sd.$(basename $r) 2>/dev/null; done
     else
-      rm -f /tmp/stress/$c.$tier.$sd.log
+      echo "ok   $c tier=$tier seed=$sd ${el}s"
+      rm -f $log
     fi
-    i=$((i+1))
   done
-  echo "done $c"
 }
-for c in $props; do one $c & 
-  while [ $(jobs -r | wc -l) -ge 6 ]; do sleep 2; done
-done
-wait
+export -f one
+printf "%s\n" $props | xargs -P $par -I{} bash -c "one {} $tier $s0 $n"
